@@ -746,7 +746,9 @@ def alg_names(ctx, prog):
     name = 'JwsAlgorithm::name/registered-name-of-each-variant'
     rep = {'scenario': 'alg_names'}
     tab = prog.enums.get('JwsAlgorithm')
-    fs = [f for f in prog.find(r'jws::algorithm::<impl at [^>]*>::name$')]
+    fs = [f for f in prog.find(r'algorithm::<impl at [^>]*jws/algorithm\.rs[^>]*>::name$')]
+    if tab:
+        tab = {v: i for v, i in tab.items() if v != 'Custom'}      # behind the custom_alg feature (off)
     if not tab or len(fs) != 1:
         ctx.add(Ob(name, 'M', INCONCLUSIVE, detail='JwsAlgorithm / name() not found'))
         return
